@@ -205,6 +205,16 @@ static void typed_print(const char *kind, int ok, const config_setting_t *m, int
   else { printf("1 "); puthex(sv); }
 }
 
+struct chunked { const char *data; size_t len, pos, chunk; };
+static ssize_t chunked_read(void *c, char *buf, size_t size)
+{
+  struct chunked *k = c; size_t n = k->len - k->pos;
+  if (n > size) n = size;
+  if (k->chunk && n > k->chunk) n = k->chunk;
+  memcpy(buf, k->data + k->pos, n); k->pos += n;
+  return (ssize_t)n;
+}
+
 static void do_read(int r)
 {
   printf("%d [%s]", r, logstr());
@@ -355,6 +365,14 @@ int main(int argc, char **argv)
       if (!len) { fclose(f); f = fopen("/dev/null", "r"); }
       do_read(config_read(&cfg, f)); fclose(f); free(s);
     }
+    else if (OP("read_chunked", 3)) {
+      /* a stream that delivers its data in pieces of at most <chunk> bytes */
+      size_t len; char *s = unhex(w[2], &len); struct chunked ck = { s, len, 0, (size_t)atol(w[1]) };
+      cookie_io_functions_t io = { chunked_read, NULL, NULL, NULL };
+      FILE *f = fopencookie(&ck, "r", io);
+      if (ck.chunk % 2) setvbuf(f, NULL, _IONBF, 0);
+      do_read(config_read(&cfg, f)); fclose(f); free(s);
+    }
     else if (OP("read_file", 2)) { char *p = unhex(w[1], NULL); do_read(config_read_file(&cfg, p)); free(p); }
     else if (OP("mkfile", 3)) {
       size_t len; char *p = unhex(w[1], NULL); char *c = unhex(w[2], &len); FILE *f;
@@ -368,6 +386,14 @@ int main(int argc, char **argv)
     else if (OP("write", 1)) {
       char *buf = NULL; size_t len = 0; FILE *m = open_memstream(&buf, &len);
       config_write(&cfg, m); fclose(m); puthexn(buf, len); free(buf);
+    }
+    else if (OP("write_file", 2)) { char *p = unhex(w[1], NULL); printf("%d", config_write_file(&cfg, p)); free(p); }
+    else if (OP("cat", 2)) {
+      char *p = unhex(w[1], NULL); FILE *f = fopen(p, "rb"); struct stat st;
+      if (!f || fstat(fileno(f), &st) != 0 || S_ISDIR(st.st_mode)) printf("null");
+      else { char *b = malloc(st.st_size + 1); size_t n = fread(b, 1, st.st_size, f); puthexn(b, n); free(b); }
+      if (f) fclose(f);
+      free(p);
     }
     else if (OP("err", 1)) { printf("%d ", config_error_type(&cfg)); puthex(config_error_text(&cfg)); printf(" "); puthex(config_error_file(&cfg)); printf(" %d", config_error_line(&cfg)); }
     else if (OP("dump", 1)) {
